@@ -7,7 +7,7 @@ P = ["C05", "C01", "C02", "C06", "C07", "C11"]
 
 specfun("is_open_obj", ["x"], "ite(typeis(x, 'Order'), x._state == OrderState.OPEN, x._is_open)")
 # representation invariant: _open_items has no duplicates, only registered items, and contains every open item
-specfun("cont_keys", ["c"], "c._reindex_every > 0 and forall(lambda k=Str: implies(k in c._items, c._items[k]._id == k))")
+specfun("cont_keys", ["c"], "c._reindex_every > 0 and forall(lambda k=Id: implies(k in c._items, c._items[k]._id == k))")
 specfun("cont_listed", ["c"],
         "forall(lambda i=Int: implies(0 <= i and i < seq_len(c._open_items), "
         "      (seq_at(c._open_items, i)._id in c._items) and same_object(c._items[seq_at(c._open_items, i)._id], seq_at(c._open_items, i))))")
@@ -15,7 +15,7 @@ specfun("cont_nodup", ["c"],
         "forall(lambda i=Int, j=Int: implies(0 <= i and i < j and j < seq_len(c._open_items), "
         "      not same_object(seq_at(c._open_items, i), seq_at(c._open_items, j))))")
 specfun("cont_pos", ["c"],
-        "forall(lambda k=Str: implies((k in c._items) and is_open_obj(c._items[k]), "
+        "forall(lambda k=Id: implies((k in c._items) and is_open_obj(c._items[k]), "
         "      0 <= c.pos[c._items[k]] and c.pos[c._items[k]] < seq_len(c._open_items) "
         "      and same_object(seq_at(c._open_items, c.pos[c._items[k]]), c._items[k])))")
 specfun("cont_inv", ["c"], "cont_keys(c) and cont_listed(c) and cont_nodup(c) and cont_pos(c)")
@@ -28,19 +28,19 @@ class_invariant("ExchangeObjectContainer",
 specfun("in_cont", ["c", "x"], "(x._id in c._items) and same_object(c._items[x._id], x)")
 
 contract(C + "__init__", props=P,
-         ensures=[("empty", "forall(lambda k=Str: not (k in self._items)) and seq_len(self._open_items) == 0")],
+         ensures=[("empty", "forall(lambda k=Id: not (k in self._items)) and seq_len(self._open_items) == 0")],
          modifies=["self"])
 
 contract(C + "add", props=P, types={"item": "$T"},
          ensures=[("added", "in_cont(self, item)"),
-                  ("others", "forall(lambda k=Str: implies(k != item._id, ((k in self._items) == old(k in self._items)) "
+                  ("others", "forall(lambda k=Id: implies(k != item._id, ((k in self._items) == old(k in self._items)) "
                              "and implies(k in self._items, same_object(self._items[k], old(self._items[k])))))"),
                   ("was_new", "not old(item._id in self._items)")],
          raises={"AssertionError!": [("dup", "old(item._id in self._items)"), ("unchanged", "unchanged(self) and content_unchanged(self._items, self._open_items)")]},
          modifies=["content(self._items)", "content(self._open_items)", "self.pos"],
          ghost_exit=[("self.pos", "mmap_put(self.pos, item, seq_len(self._open_items) - 1) if is_open_obj(item) else self.pos")])
 
-contract(C + "get", props=P, types={"id": "Str"}, returns="Opt[$T]", modifies=[],
+contract(C + "get", props=P, types={"id": "Id"}, returns="Opt[$T]", modifies=[],
          ensures=[("lookup", "is_none(result) == (not (id in self._items))"),
                   ("value", "implies(id in self._items, same_object(result, self._items[id]) and result._id == id)")])
 
